@@ -300,11 +300,14 @@ func genFeatures(t *rapid.T, d string) gm.Table {
 	}
 	if d == "mysql" {
 		// the table inherits the schema's character set; a column may state its own
+		// (string, ENUM and SET columns all carry one)
+		tb.Cols = append(tb.Cols, gm.Col{Name: "fen", Type: "enum('a','b')", Null: true}, gm.Col{Name: "fset", Type: "set('x','y')", Null: true})
+		cc := &tb.Cols[rapid.SampledFrom([]int{3, 3, len(tb.Cols) - 2, len(tb.Cols) - 1}).Draw(t, "cscol")]
 		switch rapid.IntRange(0, 3).Draw(t, "colcs") {
 		case 0:
-			tb.Cols[3].Charset, tb.Cols[3].Collation = "latin1", "latin1_bin"
+			cc.Charset, cc.Collation = "latin1", "latin1_bin"
 		case 1:
-			tb.Cols[3].Charset, tb.Cols[3].Collation = "utf8mb4", "utf8mb4_bin"
+			cc.Charset, cc.Collation = "utf8mb4", "utf8mb4_bin"
 		}
 		if rapid.IntRange(0, 3).Draw(t, "tblcs") == 0 {
 			tb.Charset, tb.Collation = "latin1", "latin1_swedish_ci"
